@@ -204,24 +204,37 @@ func nativeValue(t *dials.Type, names []string, id uint64, own string) (reflect.
 // leaf by leaf with the draws fillMech makes for the mangled layout (an
 // aliased leaf consumes the which-of-the-two draw; a set is a map here and a
 // list there, drawn alike). It is the independent reference for what the
-// library's reverse translation must produce. Not available for mangler lists
-// that move leaves between structs (anonflatten).
+// library's reverse translation must produce. (Under anonflatten the leaves of
+// an embedded struct are drawn at the enclosing level, and the embedded
+// pointer exists iff one of them is set.)
 func nativeDirect(t *dials.Type, names []string, id uint64, own string) reflect.Value {
 	v := reflect.New(t.Type()).Elem()
 	fillNative(v, names, id, own)
 	return v
 }
 
-func fillNative(v reflect.Value, names []string, id uint64, own string) {
+func fillNative(v reflect.Value, names []string, id uint64, own string) (anySet bool) {
 	t := v.Type()
 	for i := 0; i < t.NumField(); i++ {
 		f := t.Field(i)
 		fv := v.Field(i)
+		if f.Anonymous && contains(names, "anonflatten") && fv.Kind() == reflect.Ptr && fv.Type().Elem().Kind() == reflect.Struct {
+			// the mangled layout has this struct's fields at the enclosing level,
+			// each drawn by its own name; the embedded pointer exists iff one of
+			// them is set
+			p := reflect.New(fv.Type().Elem())
+			if fillNative(p.Elem(), names, id, own) {
+				fv.Set(p)
+				anySet = true
+			}
+			continue
+		}
 		if f.Name == "Stamp" || f.Name == "StampB" {
 			if f.Name == own {
 				p := reflect.New(fv.Type().Elem())
 				p.Elem().SetUint(id)
 				fv.Set(p)
+				anySet = true
 			}
 			continue
 		}
@@ -237,10 +250,15 @@ func fillNative(v reflect.Value, names []string, id uint64, own string) {
 			p := reflect.New(fv.Type().Elem())
 			fillNative(p.Elem(), names, id, own)
 			fv.Set(p)
+			anySet = true
 			continue
 		}
 		setMech(fv, leafRnd, id, own, false)
+		if !fv.IsZero() {
+			anySet = true
+		}
 	}
+	return anySet
 }
 
 type WrapSpec struct {
@@ -763,7 +781,7 @@ func (r *wrapRun) wrapped(c *ClientSpec, blank *sourcewrap.Blank, inner *wInnerW
 		if err != nil {
 			panic(err)
 		}
-		if !contains(names, "anonflatten") {
+		{
 			// the library's own reverse translation against the same data written natively
 			lib := v
 			if lib.Kind() == reflect.Ptr {
